@@ -809,10 +809,21 @@ class HistorySurface(core.Surface):
                     return all(ok(z) for z in v)
                 return True
             return isinstance(e, dict) and ok(e.get("expr"))
+
+        def same_expr_call(a, b):
+            """two expression calls are 'the same call' for this comparison only when they are the same expression under the same
+            parameter object: the symbolic model's own notion of equal results proved unreliable for expressions (a second false
+            alarm of the thorough tier: [ImportValue B, Ref AWS::NoValue, ...] under two parameter sets)"""
+            ca, cb = calls.get(a), calls.get(b)
+            if not ca or not cb or ca.get("op") != "expr" or cb.get("op") != "expr":
+                return True
+            ne, np_ = max(1, len(x.get("exprs") or [])), max(1, len(x.get("eps") or []))
+            key = lambda c: (c.get("e") % ne if isinstance(c.get("e"), int) else None, c.get("ps") % np_ if isinstance(c.get("ps"), int) else None)
+            return key(ca) == key(cb)
         for cid in o["executed"]:
             first = p["classes"].get(cid)
             if first is not None and first != cid and first in o["results"] and via.get(first) == via.get(cid) \
-                    and precise(cid) and precise(first) and o["results"][first] != o["results"][cid]:
+                    and precise(cid) and precise(first) and same_expr_call(cid, first) and o["results"][first] != o["results"][cid]:
                 bad.append(f"call {cid} is the same call as call {first} (model: equal results) but the implementation's results differ")
         for cid, d in o["pristine_mismatch"].items():
             bad.append(f"call {cid}: result differs from the same call on fresh copies in a pristine process")
